@@ -473,6 +473,10 @@ func PromoteOptionsToConstructor(selector Selector, optionNames []string) Rewrit
 					continue
 				}
 
+				if len(opt.Args) == 0 || len(opt.Assignments) == 0 {
+					return nil, fmt.Errorf("could not apply PromoteOptionsToConstructor builder veneer: option '%s' has no argument to promote", optName)
+				}
+
 				// TODO: do it for every argument/assignment?
 				arg := opt.Args[0].DeepCopy()
 				arg.Type.Nullable = false
